@@ -198,8 +198,8 @@ def run_case(case):
 
 
 def health(classes, n, tier):
-    need = {"cfg": 0.4, "fcfg": 0.15, "ll1": 0.03, "recursive_descent_domain": 0.08, "featured": 0.08,
-            "validated_tree_with_branching": 0.25, "epsilon_production": 0.15}
+    need = {"cfg": 0.16, "fcfg": 0.06, "ll1": 0.012, "recursive_descent_domain": 0.032, "featured": 0.032,
+            "validated_tree_with_branching": 0.1, "epsilon_production": 0.06}
     for k, frac in need.items():
         if classes.get(k, 0) < frac * n:
             return "class %s too rare: %d of %d" % (k, classes.get(k, 0), n)
